@@ -744,6 +744,88 @@ func inclusionCycles(c *an.Ctx, bfd *ssa.Function, rule string) {
 			}
 		}
 	}
+	// when the check has moved out of the builder (a validate step of its own), every entry point that hands out a
+	// configuration must go through it on every successful return
+	holderIsBuilder := false
+	var holders []*ssa.Function
+	for _, root := range roots {
+		if root.Parent() == bfd {
+			holderIsBuilder = true
+		}
+		holders = append(holders, root.Parent())
+	}
+	if !holderIsBuilder {
+		var vouches func(fn *ssa.Function, depth int) bool
+		vouches = func(fn *ssa.Function, depth int) bool {
+			if fn == nil || fn.Blocks == nil || depth > 3 {
+				return false
+			}
+			for _, h := range holders {
+				if h == fn {
+					return true
+				}
+			}
+			ei := an.ErrResultIndex(fn.Signature)
+			var through []ssa.Instruction
+			an.EachInstr(fn, func(in ssa.Instruction) {
+				call, ok := in.(*ssa.Call)
+				if !ok {
+					return
+				}
+				for _, callee := range p.Callees(&call.Call) {
+					if callee != fn && an.InModule(callee) && inPkgs("internal/config")(callee) && vouches(callee, depth+1) {
+						through = append(through, in)
+					}
+				}
+			})
+			// the calls after which a configuration built in this call is on its way out: those that reach the builder
+			var builds []ssa.Instruction
+			an.EachInstr(fn, func(in ssa.Instruction) {
+				call, ok := in.(*ssa.Call)
+				if !ok {
+					return
+				}
+				for _, callee := range p.Callees(&call.Call) {
+					if callee == fn || !an.InModule(callee) {
+						continue
+					}
+					if callee == bfd {
+						builds = append(builds, in)
+						continue
+					}
+					if _, reaches := p.Reach([]*ssa.Function{callee}, func(e an.CallEdge) bool { return e.Kind == an.EdgeCall && inPkgs("internal/config")(e.Callee) })[bfd]; reaches {
+						builds = append(builds, in)
+					}
+				}
+			})
+			if len(through) == 0 {
+				return len(builds) == 0 && fn != bfd && false
+			}
+			for _, ret := range an.Returns(fn) {
+				if ei >= 0 && !an.IsNilConst(an.RetVal(ret, ei)) {
+					continue
+				}
+				// (a successful return that no build can reach — nothing was loaded — has nothing to check)
+				afterBuild := len(builds) == 0
+				for _, b := range builds {
+					if b.Block() == ret.Block() || an.CanReach(b.Block(), ret.Block()) {
+						afterBuild = true
+					}
+				}
+				if afterBuild && !an.DominatedBySet(through, ret) {
+					return false
+				}
+			}
+			return true
+		}
+		for _, name := range []string{"Load", "LoadGlobalConfig"} {
+			entry := p.Func("internal/config", "Loader", name)
+			if entry == nil {
+				continue
+			}
+			c.Check(vouches(entry, 0), rule, an.Short(entry)+":inclusion-check:on-success-path", entry.Pos(), "every successful return of the entry point has passed the inclusion check", an.Short(entry)+" can hand out a configuration that never went through the inclusion check (the check lives in "+an.Short(holders[0])+", which this entry point does not reach on every successful path): a pipeline that includes itself is accepted")
+		}
+	}
 	onPathMarking(c, walker, rule)
 	// the walker follows every included pipeline: recursive call argument is stage.Pipeline of a stage of Nodes(g)
 	okFollow := false
